@@ -47,6 +47,7 @@ type batchSpec struct {
 	lm    int
 	multi *mspec // several-host-modules scenario group (sigs empty)
 	forms int    // call-form batch (forms.go)
+	held  int    // held-values batch (held.go)
 }
 
 func chunk(sigs []*sigT, li int, rots []int, lm int, out []batchSpec) []batchSpec {
@@ -116,11 +117,16 @@ func listenerSlice(thorough bool) []*sigT {
 // typed signature plus the small slice; thorough: every signature of the quick plan).
 func formsSlice(thorough bool) []*sigT { return listenerSlice(thorough) }
 
-func plan(thorough bool) (planOpts, []batchSpec, int, int, int, int) {
+// heldSlice selects the signatures of the held-values dimension: every cliff and typed signature plus the small
+// slice in both tiers (the thorough tier lengthens the words instead).
+func heldSlice(thorough bool) []*sigT { return listenerSlice(false) }
+
+func plan(thorough bool) (planOpts, []batchSpec, int, int, int, int, int) {
 	o := planOpts{maxP: 3, maxR: 2, maxArity: 20}
 	if thorough {
 		o = planOpts{maxP: 4, maxR: 3, maxArity: 32}
 		deepLevels, deepWindow, deepFallback = 4, 8, 2000
+		heldMaxLen = 4
 	}
 	var batches []batchSpec
 	// the module-layout dimension first (cheap), then the full product in the plain layout
@@ -145,9 +151,12 @@ func plan(thorough bool) (planOpts, []batchSpec, int, int, int, int) {
 		flevel = 2
 	}
 	batches = chunkForms(fsl, layoutRots, flevel, batches)
+	// the held-values dimension (plain layout): words of calls, everything handed out re-read after later calls
+	hsl := heldSlice(thorough)
+	batches = chunkHeld(hsl, 1, batches)
 	sigs := enumerateSigs(o)
 	batches = chunk(sigs, 0, allRots, lmNone, batches)
-	return o, batches, len(sigs), len(ls), len(lsl), len(fsl)
+	return o, batches, len(sigs), len(ls), len(lsl), len(fsl), len(hsl)
 }
 
 // childDeadline is the parent's budget deadline (fw.Supervise only polls Stop when it (re)starts a worker, so
@@ -179,9 +188,17 @@ func runCase(batches []batchSpec, i int) (out string) {
 		j, _ := json.Marshal(r.res)
 		return "R " + string(j)
 	}
-	b := newBatch(batches[i].sigs, batches[i].li, batches[i].rots, batches[i].lm, batches[i].forms)
+	b := newBatch(batches[i].sigs, batches[i].li, batches[i].rots, batches[i].lm, batches[i].forms, batches[i].held)
 	r.runBatch(b)
 	u := b.units[len(b.units)/2]
+	if b.held != 0 {
+		hw := heldWords()
+		wd := hw[(i*37)%len(hw)]
+		r.res.Sample = map[string]any{"batch": i, "signature": u.sig.String(), "family": u.sig.Fam, "style": u.st.String(), "held_values_word": heldWordName(wd), "words_per_unit": len(hw),
+			"step0_params": hexs(hvalues(u.sig.P, 0, false)), "step0_results": hexs(hvalues(u.sig.R, 0, true)), "step1_params": hexs(hvalues(u.sig.P, 2, false)), "step1_results": hexs(hvalues(u.sig.R, 2, true))}
+		j, _ := json.Marshal(r.res)
+		return "R " + string(j)
+	}
 	if b.forms != 0 {
 		fm := formList[(i*37)%len(formList)]
 		r.res.Sample = map[string]any{"batch": i, "signature": u.sig.String(), "family": u.sig.Fam, "style": u.st.String(), "call_form": fm.dir(), "call_forms_per_unit": len(formList),
@@ -225,7 +242,7 @@ func main() {
 		return
 	}
 	run := fw.Start("C08", "exploration")
-	opts, batches, nsigs, nLayoutSigs, nLisSigs, nFormSigs := plan(run.Thorough())
+	opts, batches, nsigs, nLayoutSigs, nLisSigs, nFormSigs, nHeldSigs := plan(run.Thorough())
 	if fw.IsChild() {
 		fw.ChildLoop(func(i int) string { return runCase(batches, i) })
 		return
@@ -238,7 +255,7 @@ func main() {
 	sampleAt := map[int]any{}
 	skipped := 0
 	famSigs := map[string]int{}
-	layoutBatches, listenerBatches, multiBatches, formBatches := 0, 0, 0, 0
+	layoutBatches, listenerBatches, multiBatches, formBatches, heldBatches := 0, 0, 0, 0, 0
 	for _, b := range batches {
 		if b.multi != nil {
 			multiBatches++
@@ -246,6 +263,10 @@ func main() {
 		}
 		if b.forms != 0 {
 			formBatches++
+			continue
+		}
+		if b.held != 0 {
+			heldBatches++
 			continue
 		}
 		if b.li != 0 {
@@ -334,16 +355,17 @@ func main() {
 	}
 	run.Finish(fw.Coverage{
 		Evaluations: total.Crossings, DistinctNontriv: total.Nontriv,
-		Rule:    "case = (signature, definition style, engine, direction or call form, value rotation), each executed once on the real runtime; non-trivial = the signature has at least one parameter or result (everything except ()->()); evaluations = individual values compared with the identity oracle at a crossing (host observation, in-guest comparison, echoed result)",
+		Rule:    "case = (signature, definition style, engine, direction or call form or held-values call word, value rotation), each executed once on the real runtime; non-trivial = the signature has at least one parameter or result (everything except ()->()); evaluations = individual values compared with the identity oracle at a crossing (host observation, in-guest comparison, echoed result, re-read of a held slice)",
 		Samples: samples, Exhaustive: true, Outcomes: om,
 		Bounds: map[string]any{
 			"small_signatures": fmt.Sprintf("all parameter lists of length <= %d x all result lists of length <= %d over {i32,i64,f32,f64,externref}", opts.maxP, opts.maxR),
 			"cliff_families":   fmt.Sprintf("all-i32/i64/f32/f64/externref, alternating int/float, int-mix, float-mix for arity 4..%d; 7 ints + k<=10 floats + m<=3 ints; each as params-only, results-only, both, params+2 results, 2 params+results", opts.maxArity),
 			"styles":           len(baseStyles), "typed_closures": len(typedDefs),
-			"directions": allDirs, "deep_const": map[string]int{"growth_boundaries": deepLevels, "window": deepWindow}, "module_layouts": layoutNames(), "layout_rotations": layoutRots, "layout_signatures": nLayoutSigs, "several_host_modules": "2-3 host modules x 3 functions at the same indexes (aligned / rotated signatures) x style combinations; call words of length 2-3 in one guest function, via one reused api.Function, around a callback; direct and call_indirect", "call_forms": map[string]any{"call_instructions": callKinds, "caller_frames": frameNames(), "entries": formEntries, "go_calling_forms": []string{"Call", "CallWithStack"}, "forms_per_unit": len(formList), "signatures": nFormSigs, "rotations": layoutRots, "core_features": "V2 + experimental tail call"}, "listener_modes": listenerModes, "listener_signatures": nLisSigs, "rotations": nRot, "boundary_rotations": nBoundary, "engines": engines,
+			"directions": allDirs, "deep_const": map[string]int{"growth_boundaries": deepLevels, "window": deepWindow}, "module_layouts": layoutNames(), "layout_rotations": layoutRots, "layout_signatures": nLayoutSigs, "several_host_modules": "2-3 host modules x 3 functions at the same indexes (aligned / rotated signatures) x style combinations; call words of length 2-3 in one guest function, via one reused api.Function, around a callback; direct and call_indirect", "call_forms": map[string]any{"call_instructions": callKinds, "caller_frames": frameNames(), "entries": formEntries, "go_calling_forms": []string{"Call", "CallWithStack"}, "forms_per_unit": len(formList), "signatures": nFormSigs, "rotations": layoutRots, "core_features": "V2 + experimental tail call"}, "held_values": map[string]any{"steps": heldLetterNames(), "word_length": fmt.Sprintf("2..%d", heldMaxLen), "words_per_unit": len(heldWords()), "signatures": nHeldSigs, "held": []string{"Call result slice", "CallWithStack stack slice", "Call parameter slice incl. spare capacity", "stack slice of a running stack-based host function across its nested call", "result / stack / parameter slices of nested calls kept by the host function"}, "re-read": "at every later host-function entry, after every nested call returns, after every later top-level step"},
+			"listener_modes": listenerModes, "listener_signatures": nLisSigs, "rotations": nRot, "boundary_rotations": nBoundary, "engines": engines,
 			"alphabet_sizes": map[string]int{"i32": len(alpha[tI32]), "i64": len(alpha[tI64]), "f32": len(alpha[tF32]), "f64": len(alpha[tF64]), "externref": len(alpha[tExt])},
 		},
-		Extra: map[string]any{"signatures": nsigs, "signatures_by_family": famSigs, "modules": len(batches) * len(engines) * 2, "batches": len(batches), "layout_batches": layoutBatches, "listener_batches": listenerBatches, "multi_host_batches": multiBatches, "call_form_batches": formBatches, "batches_done": done,
+		Extra: map[string]any{"signatures": nsigs, "signatures_by_family": famSigs, "modules": len(batches) * len(engines) * 2, "batches": len(batches), "layout_batches": layoutBatches, "listener_batches": listenerBatches, "multi_host_batches": multiBatches, "call_form_batches": formBatches, "held_value_batches": heldBatches, "batches_done": done,
 			"host_functions_defined": total.Units, "guest_functions_compiled": total.Funcs,
 			"top_level_calls": total.Calls, "host_function_invocations": total.HostCalls, "cases": total.Cases},
 	}, []string{
@@ -420,7 +442,10 @@ func replay(file string) {
 				li = i
 			}
 		}
-		r.runBatch(newBatch([]*sigT{s}, li, allRots, rp.Lis, rp.Forms))
+		if rp.Held != 0 {
+			heldMaxLen = 4
+		}
+		r.runBatch(newBatch([]*sigT{s}, li, allRots, rp.Lis, rp.Forms, rp.Held))
 	}()
 	if r.res.Cases == 0 {
 		fw.Fatalf("replay matched no case (style %v not defined for %s)", rp.Style, s)
